@@ -74,7 +74,26 @@ def compose(col, col_abs, row, row_abs):
 
 
 # ---------------------------------------------------------------- generation
+_LABEL_POOL = []
+
+
 def _label(rng):
+    # half of the labels of a scenario come from a small pool, so that the same cell shows up as a
+    # single reference, as a range corner and in several corner orders within one formula
+    if _LABEL_POOL and rng.random() < 0.5:
+        lab = rng.choice(_LABEL_POOL)
+        if rng.random() < 0.5:
+            return lab
+        ca, letters, ra, row = split_label(lab)
+        k = rng.randrange(4)
+        return ('$' if k & 1 else '') + letters + ('$' if k & 2 else '') + str(row)
+    lab = _fresh_label(rng)
+    if len(_LABEL_POOL) < 4:
+        _LABEL_POOL.append(lab)
+    return lab
+
+
+def _fresh_label(rng):
     col = rng.choice(COLS) if rng.random() < 0.7 else col_letters(rng.randrange(0, 20000))
     if rng.random() < 0.4:
         col = ''.join(rng.choice([c.lower(), c]) for c in col)
@@ -233,6 +252,8 @@ def _gen_script(rng, tok, kind, fault, extras):
         r = rng.random()
         if fault and r < 0.25:
             script.append({'a': 'raise', 'e': rng.choice(scen.BENIGN_EXC), 'm': 'boom'})
+        elif r < 0.12 + (0.25 if fault else 0) and kind in ('callCellValue', 'callRangeValue'):
+            script.append({'a': 'table'})
         elif r < 0.5:
             script.append({'a': 'set', 'v': [tok.pick()]})
         elif r < 0.62:
@@ -259,6 +280,7 @@ def _gen_script(rng, tok, kind, fault, extras):
 
 def gen(stream, rng, i, cfg):
     fault = stream == 'fault'
+    del _LABEL_POOL[:]
     tok = Tokens(rng)
     nslots = 2 if rng.random() < 0.3 else 1
     slots = []
@@ -286,9 +308,13 @@ def gen(stream, rng, i, cfg):
         kind = rng.choice(sorted(KINDS))
         ev = KINDS[kind]
         target = rng.randrange(nslots)
-        inner = TreeGen(rng, fn_arity, deny=[kind] if target == 0 else []).expr(rng.choice([0, 1, 2]))
-        act = {'a': 'nested', 'slot': target, 'f': render(inner), 'tree': inner, 'tap': 'inner'}
-        slots[0]['listeners'].setdefault(ev, []).append([act, {'a': 'noset'}])
+        inner = TreeGen(rng, fn_arity).expr(rng.choice([0, 0, 1, 2]))
+        # the nested evaluation fires from the outermost evaluation only (maxdepth 1), so the inner formula
+        # may contain references of the very kind whose listener nests; 'use': False = audit hook
+        act = {'a': 'nested', 'slot': target, 'f': render(inner), 'tree': inner, 'tap': 'inner', 'maxdepth': 1,
+               'use': rng.random() < 0.6}
+        pos = rng.randrange(len(slots[0]['listeners'].get(ev, [])) + 1)
+        slots[0]['listeners'].setdefault(ev, []).insert(pos, [act])
         if target != 0:
             # the inner parser must not nest back
             pass
@@ -356,6 +382,12 @@ class Model(object):
                     o = V.dec(j)
                     if o is not None:
                         value = o
+            elif a == 'table':
+                if payload[0] == 'cell':
+                    e = payload[1]
+                    value = '%s|%s|%s|%s|%s' % (e['label'], e['row'], e['col'], e['row_abs'], e['col_abs'])
+                elif payload[0] == 'range':
+                    value = UNKNOWN
             elif a == 'raise':
                 self.faulted = True     # treated as a skip; the run is only held to E5
             elif a == 'off_self':
@@ -372,14 +404,20 @@ class Model(object):
                     if o is not None:
                         value = o
             elif a == 'nested':
+                if self.depth > act.get('maxdepth', 99):
+                    continue
                 self.nested_done += 1
                 try:
-                    self.evaluate(act['slot'], act['tree'])
+                    v = self.evaluate(act['slot'], act['tree'])
                 except ModelAbort:
-                    pass
-                # what the inner evaluation hands on (a value, nothing, or an error object) is not
-                # predicted: the nested runs are there for the delivery logs (E7)
-                value = UNKNOWN
+                    v = UNKNOWN      # the inner record carries an error: an error object is handed on
+                # (an inner evaluation that fails in a way the model does not predict is detected on the
+                # real side through the tapped record, and the run is then not judged exactly)
+                if act.get('use', True):
+                    if v is UNKNOWN or _has_unknown(v):
+                        value = UNKNOWN
+                    elif v is not None:
+                        value = v
         return value
 
     def ev(self, s, t):
@@ -482,6 +520,11 @@ def range_problem(t1, t2, p):
             return 'row absolute markers do not travel with their rows'
         if sorted([(scol[0], scol[2]), (ecol[0], ecol[2])]) != sorted([(a['col'], a['col_abs']), (b['col'], b['col_abs'])]):
             return 'column absolute markers do not travel with their columns'
+        if a['row'] <= b['row'] and a['col'] <= b['col'] and (a['row'], a['col']) != (b['row'], b['col']):
+            # written top-left:bottom-right already: the two cells come back exactly as written
+            for nm, exp, cell in (('first', a, s), ('second', b, e)):
+                if not cell_matches(exp, cell):
+                    return '%s cell of a range written in canonical order differs from the cell as written (%r)' % (nm, exp['label'])
         for nm, cell in (('first', s), ('second', e)):
             want = compose(cell[2][0], cell[2][2], cell[1][0], cell[1][2])
             if cell[0] != want:
